@@ -77,7 +77,7 @@ func selfTest(ctx *core.Ctx) error {
 	}
 	pool.Watchdog = 3 * time.Second
 	want := map[string][2]string{ // kind -> outcome, clause
-		"panic": {"panic", "outcome"}, "spin": {"hang", "outcome"}, "block": {"fatal", "outcome"}, "leak": {"ok", "goroutines"},
+		"panic": {"panic", "outcome"}, "spin": {"hang", "outcome"}, "block": {"fatal", "outcome"}, "sleep": {"hang", "outcome"}, "leak": {"ok", "goroutines"},
 		"alloc": {"ok", "alloc"}, "overflow": {"fatal", "outcome"}, "exit": {"fatal", "outcome"}, "none": {"ok", ""},
 	}
 	var recs []Rec
